@@ -3,6 +3,10 @@
 import json, subprocess
 
 CLAIMS = {
+ "C12": dict(
+   text="Frame contracts on the real EVM call kinds: Call, CallCode, DelegateCall, StaticCall end in an error only after revertToSnapshot(snapshot taken at entry) or with no journalled mutation, so the mutation counter and the ETX / deleted-lockup list lengths are those at entry (post-fork for the lockup branch, as in the code); evm.snapshot/revertToSnapshot record and restore the state revision and both list lengths. Ghost state (mut, snapTaken, mutAt) is threaded through the vm.StateDB interface contract.",
+   note="Assumed (trusted) contracts: vm.StateDB methods' ghost effects (RevertToSnapshot restores mut to its value at Snapshot: the journal obligations J1-J4 of core/state are not yet discharged), interpreter.Run / RunLockupContract never rewrite older snapshot records, precompiles and tracers are read-only. Not yet under contract: create/Create (ErrCodeStoreOutOfGas path), the coinbasesDeleted map vs. evm.Batch coupling.",
+   design="4 (C12)", technique="contract-based deductive verification with ghost state (snapshot/mutation counters), per-exit VCs from go/ssa, z3/cvc5"),
  "C08": dict(
    text="P-accept contracts on the real seal checks: verifySeal accept => difficulty>0 and be(powHash) <= floor(2^256/difficulty) and the returned hash is the computed one; CheckWorkThreshold / CalcWorkShareThreshold accept => thresholdDiff>0 and be(powHash) <= floor(2^256/diff)*2^thresholdDiff; plus an SSA data-flow obligation that every WorkObjectHeader field except the declared seal/cache fields flows into SealEncode.",
    note="Assumed: the PoW hash engines (ComputePowHash is a trusted contract: deterministic, read-only), hash collision-freedom. Not yet under contract: AuxPoW branch of verifyHeader, Header.SealEncode coverage, CheckIfValidWorkShare post-fork branch.",
